@@ -1,9 +1,11 @@
 package main
 
 import (
+	"encoding/json"
 	"flag"
 	"fmt"
 	"os"
+	"path/filepath"
 	"sort"
 	"strings"
 	"time"
@@ -13,7 +15,8 @@ func usage() {
 	fmt.Fprintln(os.Stderr, `usage:
   govc verify  -repo /repo -lib /verif/lib -property C08 [-tier quick|thorough] [-evidence file] [-known file] [-replays dir]
   govc dump    -repo /repo -lib /verif/lib -func <substring> [-obl <substring>]   (print obligations / scripts)
-  govc list    -repo /repo -lib /verif/lib                                         (contracts and properties)`)
+  govc list    -repo /repo -lib /verif/lib                                         (contracts and properties)
+  govc replay  -file <replay.json>                                                  (re-discharge the obligation the file names on the current tree)`)
 	os.Exit(2)
 }
 
@@ -33,6 +36,7 @@ func main() {
 	fn := fs.String("func", "", "function filter (dump)")
 	obl := fs.String("obl", "", "obligation filter (dump)")
 	keep := fs.String("keep", "", "keep SMT scripts in this directory")
+	file := fs.String("file", "", "replay file written by a failed check (replay)")
 	all := fs.Bool("all", false, "verify every function under contract (ignores -property)")
 	sweep := fs.Bool("sweep", false, "include the zero-annotation safety sweep")
 	_ = fs.Parse(os.Args[2:])
@@ -69,6 +73,28 @@ func main() {
 	case "verify":
 		os.Exit(runVerify(w, verifyOpts{prop: *prop, tier: *tier, evidence: *evidence, known: *known, replays: *replays,
 			keep: *keep, all: *all, sweep: *sweep, loadS: loadS, repo: *repo}))
+	case "replay":
+		// re-discharge the one obligation a replay file names, against /repo's current working tree
+		b, err := os.ReadFile(*file)
+		if err != nil {
+			fmt.Fprintln(os.Stderr, "govc:", err)
+			os.Exit(2)
+		}
+		var rec struct {
+			Property   string `json:"property"`
+			Obligation string `json:"obligation"`
+			Clause     string `json:"clause"`
+			Where      string `json:"where"`
+		}
+		if err := json.Unmarshal(b, &rec); err != nil || rec.Obligation == "" {
+			fmt.Fprintln(os.Stderr, "govc: not a replay file:", *file)
+			os.Exit(2)
+		}
+		fmt.Printf("replaying obligation %s [%s] %s\n", rec.Obligation, rec.Where, rec.Clause)
+		d := filepath.Join(filepath.Dir(filepath.Dir(*file)), ".rerun")
+		code := runVerify(w, verifyOpts{prop: rec.Property, tier: *tier, known: *known, replays: d, all: rec.Property == "ALL",
+			loadS: loadS, repo: *repo, onlyObl: rec.Obligation})
+		os.Exit(code)
 	default:
 		usage()
 	}
